@@ -449,6 +449,113 @@ def _lazy_case(args):
     return cnt, out
 
 
+TDMS_MASK_FIXTURES = ["fmt-tdms_fl-image_2016.zip",
+                      "fmt-tdms_minimal_2016.zip",
+                      "fmt-tdms_fl-image-bright_2017.zip",
+                      "fmt-tdms_fl-image-large-fov_2017.zip"]
+
+
+def _tdms_mask_case(args):
+    """Masks that the .tdms reader derives from stored contours: for every
+    ordered pair of events (first i, then j, both kept) and for the whole
+    list, each mask handed out equals the filled contour of *its* event
+    (computed here) - also after later events were accessed -, its contour
+    refills to it and the brightness under the kept masks is that of numpy
+    on image[mask]."""
+    name, scratch = args
+    import shutil
+    import zipfile
+    import dclab
+    import scipy.ndimage as ndi
+    from dclab.features.bright import get_bright
+    from dclab.features.contour import get_contour
+    from .. import boot
+    W = "dclab.rtdc_dataset.fmt_tdms.event_mask:MaskColumn"
+    out = []
+    cnt = 0
+    d = scratch / f"c18_tdms_{name[:-4]}"
+    if d.exists():
+        shutil.rmtree(d)
+    d.mkdir()
+    case = {"kind": "tdms-mask", "name": name}
+
+    def bad(symptom, detail, **tags):
+        out.append(violation(W, symptom, case, detail,
+                             dict(tags, fixture=name[9:-4])))
+    try:
+        with zipfile.ZipFile(boot.REPO / "tests/data" / name) as z:
+            z.extractall(d)
+        tdms = [p for p in sorted(d.rglob("*.tdms"))
+                if not p.name.endswith("_traces.tdms")][0]
+        with dclab.new_dataset(tdms) as ds:
+            n = len(ds["mask"])
+            shape = tuple(ds["mask"].shape[1:])
+            refs = []
+            for i in range(n):
+                c = np.asarray(ds["contour"][i])
+                r = np.zeros(shape, dtype=bool)
+                r[c[:, 1], c[:, 0]] = True
+                refs.append(ndi.binary_fill_holes(r))
+        # a dataset object per access order: what is handed out must not
+        # depend on what was asked for before
+        with dclab.new_dataset(tdms) as ds:
+            for i in range(n):
+                for j in range(n):
+                    cnt += 1
+                    a = ds["mask"][i]
+                    b = ds["mask"][j]
+                    if not (np.array_equal(a, refs[i])
+                            and np.array_equal(b, refs[j])):
+                        bad("mask-differs-from-filled-contour",
+                            f"events {i} then {j}: mask of event "
+                            f"{i if not np.array_equal(a, refs[i]) else j} "
+                            f"differs from its filled contour in "
+                            f"{int((a != refs[i]).sum())}/"
+                            f"{int((b != refs[j]).sum())} pixels",
+                            order="same" if i == j else "pair")
+                        break
+                else:
+                    continue
+                break
+        with dclab.new_dataset(tdms) as ds:
+            kept = [ds["mask"][i] for i in range(n)]
+            for i in range(n):
+                cnt += 1
+                if not np.array_equal(kept[i], refs[i]):
+                    bad("mask-differs-from-filled-contour",
+                        f"list of all masks: entry {i} differs from the "
+                        f"filled contour of event {i}", order="list")
+                    break
+                if refs[i].sum() > 1:
+                    try:
+                        cont = get_contour(kept[i])
+                    except Exception as e:
+                        bad("exception", f"get_contour(mask[{i}]): "
+                            f"{type(e).__name__}: {e}",
+                            exc=type(e).__name__)
+                        continue
+                    lab, nlab = ndi.label(refs[i], np.ones((3, 3)))
+                    if nlab == 1 and not np.array_equal(
+                            refill(cont, shape), refs[i]):
+                        bad("refill-differs", f"event {i}: refilled "
+                            f"contour of the mask differs from the mask")
+            if "image" in ds and len(ds["image"]) >= n:
+                imgs = [np.asarray(ds["image"][i]) for i in range(n)]
+                if imgs[0].ndim == 2:
+                    cnt += 1
+                    got = get_bright(mask=kept, image=imgs, ret_data="avg")
+                    want = [imgs[i][refs[i]].mean() if refs[i].any()
+                            else np.nan for i in range(n)]
+                    if not np.allclose(got, want, equal_nan=True):
+                        bad("wrong-brightness", f"get_bright on the kept "
+                            f"masks: {np.asarray(got)} != {want}")
+    except Exception as e:
+        bad("exception", f"{type(e).__name__}: {e}", exc=type(e).__name__)
+    finally:
+        shutil.rmtree(d, ignore_errors=True)
+    return cnt, out
+
+
 def _crosstalk_case(args):
     from dclab.features.fl_crosstalk import correct_crosstalk
     out = []
@@ -489,6 +596,8 @@ def run(ctx):
     res += par.pmap(_bright_case, [(c, 8, ctx.scratch) for c in range(8)])
     res += par.pmap(_crosstalk_case, [()])
     res += par.pmap(_lazy_case, [()])
+    res += par.pmap(_tdms_mask_case, [(nm_, ctx.scratch)
+                                      for nm_ in TDMS_MASK_FIXTURES])
     viols = []
     cnt = 0
     for c, vs in res:
@@ -521,6 +630,8 @@ def run(ctx):
 def replay(case, ctx):
     if case["kind"] == "lazy":
         return _lazy_case(())[1]
+    if case["kind"] == "tdms-mask":
+        return _tdms_mask_case((case["name"], ctx.scratch))[1]
     if case["kind"] == "mask":
         masks = all_masks()
         target = np.array(case["mask"], bool)
